@@ -37,6 +37,7 @@ def run(idx: ProgramIndex, rep: Report, tier: str):
     noise_defaults(idx, rep)
     one_source(idx, rep)
     raw_parameters_behind_their_constraint(idx, rep)
+    centred_distances(idx, rep)
 
 
 def clamp_discipline(fi: FuncInfo, setting: str, value_names: Optional[List[str]] = None) -> List[str]:
@@ -215,6 +216,29 @@ def fixed_noise(idx: ProgramIndex, rep: Report):
                         "the value goes through FixedGaussianNoise.%s" % sorted(bounding)[0] if ok else
                         "`%s` stores the value as it is: the lower bound settings.min_fixed_noise is applied by the constructor only, so likelihood.noise = tensor([0., 1e-9, -0.25]) is kept verbatim - the marginal adds less than the bound, or a negative variance" % " ".join(src(c).split())[:70], {})
     rep.floor("C07-3", "writers of the fixed noise outside the constructor", n, 1)
+    # what the fixed-noise model hands out: the stored (bounded) noise, or a call-time noise that went through the bounding helper
+    fw = F.methods.get("forward")
+    if fw is None:
+        raise AnalysisError("C07-3: FixedGaussianNoise.forward not found (anchor)")
+    sn = fw.params[0]
+    probs, k = [], 0
+    for r in ast.walk(fw.node):
+        if not (isinstance(r, ast.Return) and isinstance(r.value, ast.Call) and (chain(r.value.func) or "").split(".")[-1] == "DiagLinearOperator" and r.value.args):
+            continue
+        k += 1
+        e = r.value.args[0]
+        # look through one local binding
+        if isinstance(e, ast.Name):
+            defs = [a.value for a in ast.walk(fw.node) if isinstance(a, ast.Assign) and any(isinstance(t, ast.Name) and t.id == e.id for t in a.targets)]
+            if len(defs) == 1:
+                e = defs[0]
+        if chain(e) == "%s.noise" % sn or bounded_expr(e):
+            continue
+        probs.append("returns DiagLinearOperator(%s): a noise given at call time is added as it is (0, 1e-9 or a negative value: less than settings.min_fixed_noise, or a negative variance), unlike the stored noise" % src(r.value.args[0]))
+    if k < 2:
+        raise AnalysisError("C07-3: FixedGaussianNoise.forward no longer returns the stored and the call-time noise as DiagLinearOperators (anchor)")
+    rep.add("C07-3", "%s:FixedGaussianNoise.forward[noise handed out]" % F.module.name, fw.where, not probs,
+            "%d diagonal noise operators: the stored (bounded) noise or a call-time noise through %s" % (k, sorted(bounding)[0] if bounding else "the clamp") if not probs else "; ".join(probs), {})
 
 
 def noise_defaults(idx: ProgramIndex, rep: Report):
@@ -360,3 +384,88 @@ def raw_parameters_behind_their_constraint(idx: ProgramIndex, rep: Report):
                         "`%s` computes with the raw parameter self.%s instead of the constrained self.%s: the raw value is unbounded (0 for a fresh parameter, negative after noise = 0.01), so what is added here has no lower bound - a zero or negative variance" % (" ".join(src(par).split())[:70] if par is not None else x.attr, x.attr, base), {})
     rep.add("C07-7", "gpytorch:<reads of raw parameters>", "gpytorch/", True, "%d read(s) of raw parameters inspected" % n, {"reads": n}, trivial=True)
     rep.floor("C07-7", "reads of raw parameters", n, 50)
+
+
+# ---------------------------------------------------------------------------------------------------------------------------------
+# C07-8: the distance helpers shift both inputs by one common, data-derived offset before anything that may expand |a - b|^2
+# ---------------------------------------------------------------------------------------------------------------------------------
+_OFFSET_REDUCTIONS = {"mean", "median", "amin", "amax", "min", "max"}
+_METADATA = {"requires_grad", "shape", "dtype", "device", "size", "dim", "ndim", "ndimension", "numel"}
+_DIST_HELPERS = ("sq_dist", "dist")
+
+
+def _is_offset(e: ast.AST, params) -> bool:
+    """a reduction of one of the inputs over its rows (x1.mean(-2, keepdim=True), x1.amin(...), x1[..., :1, :])"""
+    if isinstance(e, ast.Call) and isinstance(e.func, ast.Attribute) and e.func.attr in _OFFSET_REDUCTIONS:
+        return isinstance(e.func.value, ast.Name) and e.func.value.id in params
+    if isinstance(e, ast.Subscript):
+        return isinstance(e.value, ast.Name) and e.value.id in params
+    return False
+
+
+def _raw_uses(expr: ast.AST, params):
+    """(problems, offsets): every occurrence of an input in the inlined result must be `input - offset`, a reduction that builds the
+    offset, a metadata read, an equality test, or an argument handed to a sibling helper (which is checked itself)"""
+    parent = {}
+    for n in ast.walk(expr):
+        for c in ast.iter_child_nodes(n):
+            parent[id(c)] = n
+    probs, offsets = [], []
+    for n in ast.walk(expr):
+        if not (isinstance(n, ast.Name) and n.id in params):
+            continue
+        p = parent.get(id(n))
+        if isinstance(p, ast.BinOp) and isinstance(p.op, ast.Sub) and p.left is n:
+            offsets.append(p.right)
+            continue
+        if isinstance(p, ast.Attribute) and p.attr in (_OFFSET_REDUCTIONS | _METADATA):
+            continue
+        if isinstance(p, ast.Subscript) and p.value is n and isinstance(parent.get(id(p)), ast.BinOp) and parent[id(p)].right is p:
+            continue  # x1[..., :1, :] used as the offset
+        if isinstance(p, ast.Call) and n in p.args and (chain(p.func) or "").split(".")[-1] in _DIST_HELPERS + ("equal",):
+            continue
+        if isinstance(p, ast.keyword) or isinstance(p, ast.Call) and (chain(p.func) or "").split(".")[-1] in ("ones_like", "zeros_like", "empty_like"):
+            continue
+        probs.append("`%s` enters `%s` without the common offset" % (n.id, src(p)[:70]))
+    return probs, offsets
+
+
+def centred_distances(idx: ProgramIndex, rep: Report):
+    from ..symbolic import inline, walk_paths
+    rep.rule("C07-8", "the distance helpers subtract one common, data-derived offset from both inputs before torch.cdist / the quadratic "
+                      "expansion: distances of inputs far from the origin (un-normalised data) do not lose their digits to cancellation, "
+                      "which would make cross-covariances - and with them posterior covariances - indefinite")
+    mi = idx.module("gpytorch.kernels.kernel")
+    n = 0
+    for name in _DIST_HELPERS:
+        f = mi.functions.get(name)
+        if f is None:
+            raise AnalysisError("C07-8: gpytorch.kernels.kernel.%s not found" % name)
+        params = set(f.params[:2])
+        probs, seen, computes = [], set(), 0
+        for path, seq in walk_paths(f):
+            for st, env in seq:
+                if not (isinstance(st, ast.Return) and st.value is not None):
+                    continue
+                r = inline(st.value, env)
+                k = ast.dump(r)
+                if k in seen:
+                    continue
+                seen.add(k)
+                pr, offs = _raw_uses(r, params)
+                probs += pr
+                expands = any(isinstance(c, ast.Call) and (chain(c.func) or "").split(".")[-1] in ("cdist", "matmul", "mm", "bmm", "einsum") or isinstance(c, ast.BinOp) and isinstance(c.op, ast.MatMult) for c in ast.walk(r))
+                if expands:
+                    computes += 1
+                    kinds = {ast.dump(o) for o in offs}
+                    if not offs:
+                        probs.append("a path computes the distance from the inputs as given (no offset is subtracted)")
+                    elif len(kinds) > 1:
+                        probs.append("the inputs are shifted by different offsets: %s" % " vs ".join(sorted({"`%s`" % src(o)[:40] for o in offs})))
+                    elif not _is_offset(offs[0], params):
+                        probs.append("the offset `%s` is not a reduction of an input over its rows" % src(offs[0])[:60])
+        n += 1
+        probs = sorted(set(probs))
+        rep.add("C07-8", "%s:%s[common offset]" % (mi.name, name), f.where, not probs,
+                "%d returned value(s) inlined, %d of them expand the distance: both inputs enter shifted by the same row-reduction of an input" % (len(seen), computes) if not probs else "; ".join(probs), {"returns": len(seen)})
+    rep.floor("C07-8", "distance helpers", n, 2)
